@@ -13,8 +13,12 @@ import (
 	"strings"
 
 	abci "github.com/tendermint/tendermint/abci/types"
+	"github.com/tendermint/tendermint/libs/log"
 	dbm "github.com/tendermint/tm-db"
 
+	bam "github.com/pokt-network/posmint/baseapp"
+
+	"github.com/pokt-network/posmint/store/iavl"
 	"github.com/pokt-network/posmint/store/rootmulti"
 	stypes "github.com/pokt-network/posmint/store/types"
 
@@ -70,6 +74,7 @@ type Fam struct {
 	dead    bool
 	ops     int
 	extra   map[string]int
+	readBack []string
 }
 
 func New(profile string) *Fam { return &Fam{Profile: profile, extra: map[string]int{}, dead: true} }
@@ -78,8 +83,7 @@ func (f *Fam) Extra() map[string]int { return f.extra }
 func (f *Fam) open(mem *dbm.MemDB) (*inst, error) {
 	in := &inst{mem: mem, budget: -1}
 	db := crashDB{DB: mem, budget: &in.budget, writes: &in.writes}
-	in.ms = rootmulti.NewStore(db)
-	in.ms.SetPruning(stypes.NewPruningOptions(f.kr, f.ke))
+	in.ms = f.newMultiStore(db)
 	for i := 0; i < f.n; i++ {
 		k := stypes.NewKVStoreKey(fmt.Sprintf("s%d", i))
 		in.keys = append(in.keys, k)
@@ -97,6 +101,22 @@ func (f *Fam) open(mem *dbm.MemDB) (*inst, error) {
 		err = in.ms.LoadLatestVersion()
 	}()
 	return in, err
+}
+
+// newMultiStore: the multistore of a base application, its pruning configured the way an application configures it
+// (the `SetPruning` option of the base app), or - every other chain - a bare multistore with `SetPruning` called on it
+func (f *Fam) newMultiStore(db dbm.DB) *rootmulti.Store {
+	opts := stypes.NewPruningOptions(f.kr, f.ke)
+	if (f.kr+f.ke+int64(f.n))%2 == 0 {
+		app := bam.NewBaseApp("rm", log.NewNopLogger(), db, nil, bam.SetPruning(opts))
+		if ms, ok := app.Store().(*rootmulti.Store); ok {
+			f.extra["multistore-of-a-base-app"]++
+			return ms
+		}
+	}
+	ms := rootmulti.NewStore(db)
+	ms.SetPruning(opts)
+	return ms
 }
 
 func hx(b []byte) string {
@@ -217,8 +237,15 @@ func (f *Fam) applyWrite(in *inst, w []string) {
 	}
 	if w[0] == "set" {
 		s.Set(unhx(w[2]), unhx(w[3]))
+		// what was written is what is read, an empty value included (present, not absent)
+		if got := s.Get(unhx(w[2])); got == nil || !bytes.Equal(got, unhx(w[3])) || !s.Has(unhx(w[2])) {
+			f.readBack = append(f.readBack, fmt.Sprintf("%s: Get returned %x (nil: %v), Has %v", strings.Join(w, " "), got, got == nil, s.Has(unhx(w[2]))))
+		}
 	} else {
 		s.Delete(unhx(w[2]))
+		if got := s.Get(unhx(w[2])); got != nil || s.Has(unhx(w[2])) {
+			f.readBack = append(f.readBack, fmt.Sprintf("%s: still present after the delete (%x)", strings.Join(w, " "), got))
+		}
 	}
 }
 
@@ -250,12 +277,16 @@ func (f *Fam) Exec(op string) (obs string, fails []common.Failure) {
 	}
 	switch w[0] {
 	case "set", "del":
+		f.readBack = nil
 		f.applyWrite(f.a, w)
 		f.applyWrite(f.b, w)
+		for _, d := range f.readBack {
+			fail("read-back", "C12:write-not-read-back", d)
+		}
 		if w[1] != "t" {
 			f.pend = append(f.pend, op)
 		}
-		return "ok", nil
+		return "ok", fails
 	case "commit", "replay":
 		if w[0] == "replay" {
 			for _, p := range f.pend {
@@ -392,8 +423,7 @@ func (f *Fam) committedDump() string {
 // open2 loads version v into a fresh store over in.mem and dumps it; "" on error.
 func (f *Fam) open2(in *inst, v int64) (d string, err error) {
 	db := crashDB{DB: in.mem, budget: &in.budget, writes: &in.writes}
-	in.ms = rootmulti.NewStore(db)
-	in.ms.SetPruning(stypes.NewPruningOptions(f.kr, f.ke))
+	in.ms = f.newMultiStore(db)
 	for i := 0; i < f.n; i++ {
 		k := stypes.NewKVStoreKey(fmt.Sprintf("s%d", i))
 		in.keys = append(in.keys, k)
@@ -478,6 +508,27 @@ func (f *Fam) query(w []string, fail func(string, string, string)) string {
 	}()
 	if perr != "" {
 		return "panic"
+	}
+	// the same question put to a snapshot of the substore at the latest version (what `CacheMultiStoreWithVersion`
+	// hands out): a snapshot answers for its own version only - any other height gets no value and no proof
+	if latest := f.a.ms.LastCommitID().Version; latest >= 1 && h != latest && h != 0 && i < len(f.a.keys) {
+		func() {
+			defer func() { recover() }()
+			st, ok := f.a.ms.GetCommitKVStore(f.a.keys[i]).(*iavl.Store)
+			if !ok {
+				return
+			}
+			im, err := st.GetImmutable(latest)
+			if err != nil {
+				return
+			}
+			r2 := im.Query(abci.RequestQuery{Path: "/key", Data: key, Height: h, Prove: prove})
+			f.extra["snapshot-store-queries-at-another-height"]++
+			if len(r2.Value) != 0 || r2.Proof != nil {
+				fail("snapshot-own-version", "C14:snapshot-answers-for-another-height", fmt.Sprintf("%s: a snapshot of the store at version %d answered a query for height %d with value %x (proof: %v)",
+					strings.Join(w, " "), latest, h, r2.Value, r2.Proof != nil))
+			}
+		}()
 	}
 	if res.Code != 0 {
 		return "err"
